@@ -173,6 +173,17 @@ CallContract(st, a) ==
     ELSE Acc(st, "unit", <<[k |-> "contract_called", caller |-> a.caller, chain |-> a.chain,
                             addr |-> a.addr, payload |-> a.payload, ph |-> a.payload]>>)
 
+(* An application behind the executable interface (contracts/example, or any app using
+   AxelarExecutableInterface::validate_message): execute(source_chain, message_id, source_address,
+   payload) consumes the approval for itself and only then performs its effect. *)
+AppExecute(st, a) ==
+    LET vm == ValidateMessage(st, [caller |-> a.app, key |-> a.key, src |-> a.src, ph |-> a.payload,
+                                   via |-> "self", auth |-> {}]) IN
+    IF vm.ret = "true"
+    THEN Acc(vm.post, "unit",
+             vm.ev \o <<[k |-> "app_executed", app |-> a.app, key |-> a.key, src |-> a.src, payload |-> a.payload]>>)
+    ELSE Rej(st, "approved", {"approved"})
+
 (* Ownable / Operatable (derived) *)
 TransferOwnership(st, a) ==
     IF st.owner \notin a.auth THEN Rej(st, "role_auth", {"role_auth"})
@@ -219,6 +230,7 @@ Apply(st, a) ==
       [] a.name = "RotateSigners"        -> RotateSigners(st, a)
       [] a.name = "ValidateMessage"      -> ValidateMessage(st, a)
       [] a.name = "CallContract"         -> CallContract(st, a)
+      [] a.name = "AppExecute"           -> AppExecute(st, a)
       [] a.name = "TransferOwnership"    -> TransferOwnership(st, a)
       [] a.name = "TransferOperatorship" -> TransferOperatorship(st, a)
       [] a.name = "Tick"                 -> Tick(st, a)
